@@ -1,7 +1,7 @@
 (* C15 -- read_runtime_data() keys equal sensors() for every model and capability set (ET capability model
    Model/ETCaps.v, compared with the real class on every run; finite spaces enumerated completely by vm_compute). *)
 From Coq Require Import List Bool Arith.
-From GW Require Import ETCaps ETCapsProofs.
+From GW Require Import ETCaps ETCapsProofs ETProg ETGen ETRefine.
 Import ListNotations.
 
 (* from EVERY capability set (reachable or not) and for EVERY set of refused blocks / battery presence: whenever the call
@@ -18,6 +18,17 @@ Theorem C15_filter_level_invariant : forall c e lose, meter_level c <= 2 ->
   let '(_, _, c') := read_runtime_data c e lose in meter_level c <= meter_level c' /\ meter_level c' <= 2.
 Proof. exact level_monotone. Qed.
 
+(* the capability model IS the current source: ET.read_runtime_data and ET.sensors() translated by tools/et2v.py on this run (statement
+   language Model/ETProg.v) and proved equal to the model by complete enumeration inside Coq *)
+Theorem C15_read_runtime_data_is_the_model : forall c e lose, meter_level c <= 2 ->
+  run_rrd e lose et_read_runtime_data c = read_runtime_data c e lose.
+Proof. exact read_runtime_data_refined. Qed.
+
+Theorem C15_sensors_is_the_model : forall c, run_sensors et_sensors_always et_sensors_guarded c = sensors_groups c.
+Proof. exact sensors_refined. Qed.
+
 Print Assumptions C15_keys_equal_sensors.
 Print Assumptions C15_succeeds_by_second_call.
 Print Assumptions C15_filter_level_invariant.
+Print Assumptions C15_read_runtime_data_is_the_model.
+Print Assumptions C15_sensors_is_the_model.
